@@ -512,10 +512,9 @@ class Session(BaseSession):
 
     async def _info_schema_middleware(self, q: Query) -> AllowedResult:
         """Intercept queries to INFORMATION_SCHEMA tables"""
-        dbs = find_dbs(q.expression)
-        if (self.database and self.database.lower() in INFO_SCHEMA) or (
-            dbs and all(db.lower() in INFO_SCHEMA for db in dbs)
-        ):
+        # Unqualified tables live in the current database
+        dbs = [db or self.database or "" for db in find_dbs(q.expression)]
+        if dbs and all(db.lower() in INFO_SCHEMA for db in dbs):
             return await self._query_info_schema(q.expression)
         return await q.next()
 
